@@ -102,3 +102,38 @@
 (assert (forall ((c Iface)) (! (oncurve c (curveGx c) (curveGy c)) :pattern ((curveGx c)))))
 (assert (forall ((x Int) (n Int)) (! (=> (and (= x 2) (>= n 0)) (= (ipow x n) (pow2 n))) :pattern ((ipow x n)))))
 (assert (forall ((n Int)) (! (=> (>= n 1) (>= (pow2 n) 2)) :pattern ((pow2 n)))))
+
+; ----- symbolic products (kept out of nonlinear arithmetic) -----
+(declare-fun imul (Int Int) Int)
+(assert (forall ((a Int) (b Int)) (! (= (imul a b) (imul b a)) :pattern ((imul a b)))))
+(assert (forall ((a Int) (b Int)) (! (=> (and (>= a 0) (>= b 0)) (>= (imul a b) 0)) :pattern ((imul a b)))))
+(assert (forall ((a Int) (b Int)) (! (=> (and (> a 0) (> b 0)) (and (>= (imul a b) a) (>= (imul a b) b))) :pattern ((imul a b)))))
+(assert (forall ((a Int) (b Int)) (! (=> (or (= a 0) (= b 0)) (= (imul a b) 0)) :pattern ((imul a b)))))
+(assert (forall ((a Int) (b Int)) (! (=> (= a 1) (= (imul a b) b)) :pattern ((imul a b)))))
+(assert (forall ((a Int) (b Int)) (! (=> (not (= (imul a b) 0)) (and (not (= a 0)) (not (= b 0)))) :pattern ((imul a b)))))
+(assert (forall ((a Int) (b Int)) (! (=> (and (> a 1) (> b 1)) (and (> (imul a b) a) (> (imul a b) b))) :pattern ((imul a b)))))
+(assert (forall ((a Int) (b Int)) (! (=> (and (> a 0) (> b 0)) (<= (bitlen (imul a b)) (+ (bitlen a) (bitlen b)))) :pattern ((imul a b)))))
+
+; ----- hash input framing (common/hash.go) -----
+; bs of a single element
+(assert (forall ((a (Array Int Int)) (o Int)) (! (= (bs a o 1) (single (select a o))) :pattern ((bs a o 1)))))
+; framei(init, R, o, n, B): init followed by, for k < n, be(B[R[o+k]]) '$' le64(len)   (SHA512_256i / _TAGGED data)
+; R = backing array of the []*big.Int, B = big.Int value heap. frameiz is the
+; same function with no unfolding axiom (one level of unfolding per term).
+(declare-fun framei (BStr (Array Int Int) Int Int (Array Int Int)) BStr)
+(declare-fun frameiz (BStr (Array Int Int) Int Int (Array Int Int)) BStr)
+(assert (forall ((i BStr) (r (Array Int Int)) (o Int) (n Int) (b (Array Int Int))) (! (= (framei i r o n b) (frameiz i r o n b)) :pattern ((framei i r o n b)))))
+(assert (forall ((i BStr) (r (Array Int Int)) (o Int) (n Int) (b (Array Int Int))) (! (=> (<= n 0) (= (framei i r o n b) i)) :pattern ((framei i r o n b)))))
+(assert (forall ((i BStr) (r (Array Int Int)) (o Int) (n Int) (b (Array Int Int))) (! (=> (> n 0) (= (framei i r o n b) (cat (cat (cat (frameiz i r o (- n 1) b) (be (select b (select r (+ o (- n 1)))))) (single 36)) (le64 (blen (be (select b (select r (+ o (- n 1)))))))))) :pattern ((framei i r o n b)))))
+; frameb(init, S, o, n, E): the same over a [][]byte: S = backing array of slices, E = byte heap (SHA512_256 data)
+(declare-fun frameb (BStr (Array Int Slice) Int Int (Array Int (Array Int Int))) BStr)
+(declare-fun framebz (BStr (Array Int Slice) Int Int (Array Int (Array Int Int))) BStr)
+(assert (forall ((i BStr) (s (Array Int Slice)) (o Int) (n Int) (e (Array Int (Array Int Int)))) (! (= (frameb i s o n e) (framebz i s o n e)) :pattern ((frameb i s o n e)))))
+(assert (forall ((i BStr) (s (Array Int Slice)) (o Int) (n Int) (e (Array Int (Array Int Int)))) (! (=> (<= n 0) (= (frameb i s o n e) i)) :pattern ((frameb i s o n e)))))
+(assert (forall ((i BStr) (s (Array Int Slice)) (o Int) (n Int) (e (Array Int (Array Int Int)))) (! (=> (> n 0) (= (frameb i s o n e) (cat (cat (cat (framebz i s o (- n 1) e) (bs (select e (s-arr (select s (+ o (- n 1))))) (s-off (select s (+ o (- n 1)))) (s-len (select s (+ o (- n 1)))))) (single 36)) (le64 (s-len (select s (+ o (- n 1)))))))) :pattern ((frameb i s o n e)))))
+(define-fun HK512_256 () Int 15)   ; crypto.SHA512_256
+(assert (= (hashlen 15) 32))
+
+; ----- element addresses: idx(off, k) = off + k, kept as a symbol so that patterns over slice elements are arithmetic-free -----
+(declare-fun idx (Int Int) Int)
+(assert (forall ((o Int) (k Int)) (! (= (idx o k) (+ o k)) :pattern ((idx o k)))))
